@@ -112,7 +112,7 @@ def do_runall(only=None):
         rc, out = sh(f'git apply {d}/patch.diff', cwd=scratch)
         assert rc == 0, (name, out)
         for c in checks[:1]:
-            rc, out = sh(f'./check {c} --tier quick', cwd=VERIF,
+            rc, out = sh(f'./check {c} --tier quick --fail-fast', cwd=VERIF,
                          env=dict(VERIF_NO_EVIDENCE='1', OMEGA_SRC=scratch))
             ok = rc == 1 and 'VIOLATION' in out
             print(name, c, 'rc', rc, 'DETECTED' if ok else 'MISSED/ERROR',
